@@ -120,7 +120,10 @@ def run_both(histories, jobs=8):
     if not histories:
         return
     jobs = max(1, min(jobs, len(histories)))
-    shards = [histories[i::jobs] for i in range(jobs)]
+    # many more shards than workers, heaviest first: one very long history must not serialise a whole sixteenth of the run
+    nsh = max(1, min(len(histories), 8 * jobs))
+    order = sorted(range(len(histories)), key=lambda i: -len(histories[i].ops))
+    shards = [[histories[i] for i in order[k::nsh]] for k in range(nsh)]
     with concurrent.futures.ThreadPoolExecutor(max_workers=2 * jobs) as ex:
         futs = []
         for s in shards:
@@ -163,7 +166,7 @@ def data_mode(new_line):
     if kind in ("fastin", "fastout"):
         return "exact"
     if kind in ("sincin", "sincout"):
-        return "exact" if t[-1] in ("probe", "lprobe") else "tol"
+        return "exact" if t[-1] in ("probe", "lprobe", "rprobe") else "tol"
     if kind in ("fftin", "fftout", "fftio"):
         # naive-DFT unit model for small blocks (the driver prints `d ?` when the blocks are too large to model)
         return "ffttol"
